@@ -311,6 +311,9 @@ func genSession14(c *Chooser) Session {
 	}
 	if !g.Huge && iv.precision != 0 && c.Chance(2, 3) {
 		b = perturb(c, a, iv.precision) // differences around the tolerance
+		if c.Chance(1, 3) {
+			a, b = straddle(c, a, a, iv.precision) // ... on either side of zero or of the value
+		}
 	}
 	if c.Chance(1, 40) {
 		a = nil // the empty document
@@ -329,6 +332,11 @@ func genSession14(c *Chooser) Session {
 			b.Elems = append(b.Elems, h)
 		case c.Chance(1, 8):
 			b.set(strings.Repeat("long-key-", 130), h)
+		case c.Chance(1, 3):
+			// or under a key that some carrier treats specially: digits with
+			// leading zeros or a sign (JSON Pointer), control characters and
+			// escape sequences (the native path syntax), a literal \u escape
+			b.set([]string{"007", "+1", "-12", "02134", "del\u007f", "esc\u001b[0m", "k\u0001", "vt\u000b", "\\u003ckey", "a\\b", "tab\there"}[c.Int(11)], []*Val{h, vn(1), vs("x")}[c.Int(3)])
 		default:
 			b.set("note", h)
 		}
@@ -520,7 +528,12 @@ func genSession14(c *Chooser) Session {
 		}
 		iv.v1 = false
 		fl := append(iv.flags(), flagSpec{name: "git-diff-driver"})
-		s.Procs = []ProcSpec{{Bin: iv.bin, Argv: renderArgv(c, fl, []string{"path", an, "abc123", "100644", bn, "def456", "100644"})}}
+		// what git passes besides the two files says nothing about their
+		// contents: object ids may be equal (a mode-only change), all zero (id
+		// not computed), or absent
+		ids := [][2]string{{"abc123", "def456"}, {"abc123", "def456"}, {"abc123", "abc123"}, {"0000000000000000000000000000000000000000", "0000000000000000000000000000000000000000"}, {"abc123", "."}, {"e69de29bb2d1d6434b8b29ae775ad8c2e48c5391", "0000000000000000000000000000000000000000"}}[c.Int(6)]
+		modes := [][2]string{{"100644", "100644"}, {"100644", "100755"}, {"100644", "."}}[c.Pick(4, 1, 1)]
+		s.Procs = []ProcSpec{{Bin: iv.bin, Argv: renderArgv(c, fl, []string{"path", an, ids[0], modes[0], bn, ids[1], modes[1]})}}
 	case 4: // S6 misuse
 		s.Kind = "misuse"
 		s.Procs = []ProcSpec{genMisuse(c, iv, &s, an, bn)}
